@@ -97,6 +97,10 @@ enum Change {
     Heard { link: usize },
     Proof { link: usize },
     CumAck,
+    /// REG_ERR from the receiver (shell effect: connected = false, receive stamp cleared, no core reset)
+    RegErr { link: usize },
+    /// REG3 on a disconnected link
+    Reg3 { link: usize },
 }
 
 fn apply(conns: &mut [SrtlaConnection], ch: &Change, now: &mut u64, seq: &mut i32, classic: bool) {
@@ -139,6 +143,23 @@ fn apply(conns: &mut [SrtlaConnection], ch: &Change, now: &mut u64, seq: &mut i3
                 c.last_received = Some(*now);
             }
         }
+        Change::RegErr { link } => {
+            // what the shell does on REG_ERR: no core reset, whatever the guard holds on the link stays in place
+            if let Some(c) = conns.get_mut(*link) {
+                c.connected = false;
+                c.last_received = None;
+            }
+        }
+        Change::Reg3 { link } => {
+            // what the shell does on REG3
+            if let Some(c) = conns.get_mut(*link)
+                && !c.connected
+            {
+                c.clear_pre_registration_state(*now);
+                c.connected = true;
+                c.last_received = Some(*now);
+            }
+        }
         Change::CumAck => {
             let a = *seq - 3;
             for c in conns.iter_mut() {
@@ -157,6 +178,8 @@ fn gen_change(rng: &mut Rng, n: usize) -> Change {
         6 => Change::Nak { link },
         7..=8 => Change::Heard { link },
         9 => Change::Proof { link },
+        10 if rng.chance(1, 3) => Change::RegErr { link },
+        10 if rng.chance(1, 2) => Change::Reg3 { link },
         _ => Change::CumAck,
     }
 }
